@@ -79,12 +79,18 @@ def request_kwargs(shape):
         hdrs.add("X-R", "two")
     if shape.get("headers") == "nonascii":
         hdrs["X-N"] = "café €"
+    if shape.get("headers") == "case-variants":
+        # the same field name in two spellings: two field lines, like a repeated name
+        hdrs = [("X-A", "1"), ("X-R", "one"), ("x-r", "two")]
+        kw["headers"] = hdrs
+        exp["headers"] = [(k, v) for k, v in hdrs]
     if shape.get("headers") == "empty-value":
         hdrs["X-E"] = ""
     if shape.get("close"):
         hdrs["Connection"] = "close"
-    kw["headers"] = hdrs
-    exp["headers"] = [(k, v) for k, v in hdrs.items() if k.startswith("X-")]
+    if shape.get("headers") != "case-variants":
+        kw["headers"] = hdrs
+        exp["headers"] = [(k, v) for k, v in hdrs.items() if k.startswith("X-")]
     if shape.get("cookies"):
         kw["cookies"] = {"ck": "v1", "other": "a b"}
         exp["cookies"] = {"ck": "v1", "other": "a b"}
@@ -127,6 +133,8 @@ def request_kwargs(shape):
     exp["body"] = logical
     if shape.get("chunked"):
         kw["chunked"] = True
+    if shape.get("chunked") is False:
+        kw["chunked"] = False        # said explicitly
     if shape.get("compress"):
         kw["compress"] = shape["compress"]
     if shape.get("expect100"):
@@ -190,7 +198,7 @@ class Scen:
     # ---- server application
     async def handler(self, request):
         rec = {"method": request.method, "raw_path": request.raw_path, "path": request.path, "query": list(request.query.items()),
-               "headers": [(k, v) for k, v in request.headers.items() if k.startswith("X-")], "cookies": dict(request.cookies),
+               "headers": [(k, v) for k, v in request.headers.items() if k.upper().startswith("X-")], "cookies": dict(request.cookies),
                "version": tuple(request.version)}
         ctype = request.content_type
         try:
@@ -481,9 +489,11 @@ def cases(quick):
         add(f"req/method-{m}", {"method": m}, canon_resp)
     for p in ("/p/é/x y?q=1&q=2&e=%2F", "/?a=b", "/a%2Fb/c%25?x=%26", "/p;v=1/q,r?k=v+w"):
         add(f"req/path-{p}", {"path": p}, canon_resp)
-    for h in ("repeated", "nonascii", "empty-value"):
+    for h in ("repeated", "nonascii", "empty-value", "case-variants"):
         add(f"req/headers-{h}", {"headers": h}, canon_resp)
     add("req/cookies", {"cookies": True}, canon_resp)
+    for body, n in (("bytes", 5), ("bytes", 3000), ("str", 5), ("bytesio", 2049)):
+        add(f"req/{body}-{n}-chunked-false", {"method": "POST", "body": body, "size": n, "chunked": False}, canon_resp)
     add("req/close", {"close": True}, canon_resp)
     add("req/http10", {"http10": True}, canon_resp)
     add("req/http10-post", {"http10": True, "method": "POST", "body": "bytes", "size": 100}, canon_resp)
@@ -514,6 +524,9 @@ def cases(quick):
             if kind == "file" and opt.get("chunked"):
                 continue        # FileResponse declares its own length; chunked encoding on it is refused by the API
             add(f"resp/{kind}-{'+'.join(opt)}", canon_req, dict({"kind": kind, "size": 3000}, **opt))
+    for st in (200, 404):
+        add(f"resp/{st}-empty+compress", canon_req, {"status": st, "kind": "empty", "compress": True})
+        add(f"resp/{st}-empty+chunked", canon_req, {"status": st, "kind": "empty", "chunked": True})
     add("resp/stream-length", canon_req, {"kind": "stream2", "size": 100, "length": True})
     add("resp/reason", canon_req, {"kind": "bytes", "reason": "Very Custom"})
     add("resp/headers-repeated", canon_req, {"kind": "bytes", "headers": "repeated"})
